@@ -403,6 +403,10 @@ func (l *list[K]) DeleteRangeByRank(start, end int, dict map[K]float64) []Node[K
 
 // GetNodeByRank finds an element by its rank. The rank argument needs to be 1-based.
 func (l *list[K]) GetNodeByRank(rank int) *listNode[K] {
+	if rank <= 0 {
+		// rank 0 would match the header, which is not an element
+		return nil
+	}
 	var traversed int
 
 	x := l.header
